@@ -75,6 +75,7 @@ type XOpts struct {
 	Arrays             bool
 	UserPtrs           bool
 	Unexported         bool // unexported fields (raw types only make sense with them)
+	ForceElemEmbed     bool // the first top-level field is a slice/array of structs whose element embeds a pointer to a struct
 	ElemNested         bool // element structs of slices/arrays/maps may contain struct, *struct and embedded struct fields
 	ElemUnexported     bool // unexported fields inside the element structs of slices/arrays/maps (Pointerify keeps those)
 	DialsTags          bool
@@ -253,6 +254,10 @@ func (g *XGen) Struct(depth int) reflect.Type {
 		var sf reflect.StructField
 		x := r.Intn(100)
 		structy := false
+		forced := o.ForceElemEmbed && depth == 0 && i == 0 && depth < o.MaxDepth
+		if forced {
+			x = 45
+		}
 		switch {
 		case o.Unexported && x < 6:
 			sf = reflect.StructField{Name: "u" + strings.ToLower(name), PkgPath: "verifharness/gen", Type: g.leaf()}
@@ -281,7 +286,7 @@ func (g *XGen) Struct(depth int) reflect.Type {
 			}
 			g.O.Unexported = saveU || (g.O.ElemUnexported && r.Chance(1, 2))
 			el := g.Struct(depth + 1)
-			if g.O.ElemNested && g.O.Embedded && r.Chance(1, 3) {
+			if forced || g.O.ElemNested && g.O.Embedded && r.Chance(1, 3) {
 				// the element embeds a pointer to a struct of leaves (its promoted
 				// fields are plain, non-pointerified scalars)
 				g.O.MaxDepth = depth + 1
@@ -294,7 +299,11 @@ func (g *XGen) Struct(depth int) reflect.Type {
 				el = reflect.StructOf(fs)
 			}
 			g.O.MaxDepth, g.O.Unexported = save, saveU
-			switch r.Intn(4) {
+			kind := r.Intn(4)
+			if forced && kind == 3 {
+				kind = 0
+			}
+			switch kind {
 			case 0, 1:
 				sf = reflect.StructField{Name: name, Type: reflect.SliceOf(el)}
 			case 2:
